@@ -5,7 +5,7 @@ just fetched; R3 every failing step records where it failed, first error wins;
 R4 the line/column scan walks characters."""
 from ..core import callee_of, expr_walk, expr_str, return_defs, short, op_place, MissingAnchor
 from .. import awrite
-from ..pathq import edge_guards
+from ..pathq import edge_guards, error_blocks
 from ..pathq import bool_branch, exists_path_avoiding, blocks_after, natural_loops, try_continue_block
 
 EXPLANATION = (
@@ -88,6 +88,40 @@ def run(rep, facts, tier):
                 rep.add('C17.R1', 'C17.R1:%s:debug_map-%s-alone' % (fn, d['how'].split(':')[-1]), False,
                         '%s shrinks debug_map but not code' % short(fn), fn, d['at'])
     rep.floor('C17.R1 length-changing writes to code', n, 3)
+    # the other direction: a debug_map entry is written only when an instruction is appended.  Patching an instruction that is
+    # already there (backpatch of a jump, Resolve) must leave its entry alone - the entry names the word that was compiled into
+    # that slot, not the word that closed the construct later
+    for fn, ws in sorted(W.items()):
+        f = V(fn)
+        dw = [w for w in ws if w['field'][0] == 'debug_map' and (w['how'].startswith('call:grow') or w['how'].startswith('assign'))]
+        cg = [w for w in ws if w['field'][0] == 'code' and w['how'].startswith('call:grow')]
+        for d in dw:
+            cgb = {c['bb'] for c in cg}
+            rets_ = set(f.return_blocks()) - error_blocks(f)
+            okret = {bb for (bb, i, cls, dd) in return_defs(f) if cls in ('ok', 'forward', 'other')} or rets_
+            ok = bool(cgb) and (any(f.dominates(c, d['bb']) for c in cgb) or d['bb'] in cgb or
+                                exists_path_avoiding(f, d['bb'], lambda b: b in okret, cgb) is None)
+            rep.add('C17.R1', 'C17.R1:%s:map-entry-written-only-with-an-append' % fn, ok,
+                    'the entry is written on the way to code.push' if ok else
+                    '%s writes a debug_map entry without appending an instruction: a patched instruction (if / else / while / do / of / break) '
+                    'is re-attributed to the word that closed the construct, and a run-time error in it points there' % short(fn), fn, d['at'])
+    # source texts stay as long as the code compiled from them: State.sources shrinks only together with code and debug_map
+    n_src = 0
+    for fn, ws in sorted(W.items()):
+        f = V(fn)
+        sw = [w for w in ws if w['field'][0] == 'sources' and w['how'].startswith('call:shrink')]
+        ct = {w['bb'] for w in ws if w['field'][0] == 'code' and w['how'].startswith('call:shrink')}
+        rets = set(f.return_blocks())
+        for w in sw:
+            n_src += 1
+            p = exists_path_avoiding(f, w['bb'], lambda b: b in rets, ct) if w['bb'] not in ct else None
+            before = any(f.dominates(c, w['bb']) for c in ct)
+            ok = bool(ct) and (p is None or before)
+            rep.add('C17.R2', 'C17.R2:%s:sources-shrink-only-with-code' % fn, ok,
+                    'the registry is cut back on the paths that also cut code and debug_map back' if ok else
+                    '%s drops source texts on a path that keeps the code compiled from them (bb%s): a later failure inside that code has no '
+                    'source, line or column to report' % (short(fn), '->bb'.join(map(str, (p or [])[:8]))), fn, w['at'])
+    rep.floor('C17.R2 shrinking writes to sources', n_src, 1)
 
     # ---------- R2
     nt = fx.need('state::State::next_token')
